@@ -82,5 +82,37 @@ CHECKS["C20"] = dict(
     ],
 )
 
+CHECKS["C04"] = dict(
+    level="exploration",
+    technique="model-based stateful property testing (rapid) of event.State / crdt.Volatile / crdt.Durable replicas against the LWW lattice (pointwise max of add/remove times)",
+    level_text="2-4 replicas (volatile and durable mixed) apply generated local add/remove operations at drawn clocks (ties, backwards clocks) and receive "
+               "generated payloads - single operations, full snapshots, deltas returned by earlier merges - with and without Encode/DecodeState hops, with "
+               "duplication and arbitrary order; after every step every replica's Get/Has/Range/Count/Subscriptions must equal its model, and after a final "
+               "all-to-all snapshot exchange in a drawn order all replicas must be identical.",
+    level_note="Trusted: the lattice model (20 lines), crdt.Now clock injection, the VerifSubset accessor. Payload value bytes are not part of the oracle "
+               "(the statement speaks of entries and times). Durable snapshots are exact only below the 50 000-entry reservoir.",
+    rule="rapid-generated histories (<=50 steps, 7 events of 3 types, clocks 1..8); non-trivial = >=3 replicas touched, >=1 tie or backwards clock and >=1 "
+         "re-deliverable (encoded) payload shipped; distinct = distinct case value.",
+    assumptions=["tombstone expiry (6 h TTL in the durable store) is outside the explored time span"],
+    legs=[dict(name="convergence", test="^TestConvergence$", quick=dict(n=2500, procs=4, timeout=300), thorough=dict(n=250000, procs=14, timeout=2400))],
+)
+
+CHECKS["C13"] = dict(
+    level="exploration",
+    technique="model-based property testing (rapid): delta returned by State.Merge compared with an independently computed lattice delta; queueing histories "
+              "on a transcription of mesh's gossipSender checked for 'everything queued is sent'",
+    level_text="(a) On the replicated-state machine of C04 every Merge's returned delta must contain exactly the entries and only the add/remove times that "
+               "changed the receiver, be nil exactly when nothing changed, and leave the receiver at the pointwise maximum (volatile and durable receivers, "
+               "ops/snapshots/relayed deltas, with and without encode hops). (b) 1-6 payloads (ops, deltas, live full states) are queued on 1-3 links of the "
+               "transcribed sender, one object possibly on several links; the decoded join of what is put on the wire must dominate the join of what was queued. "
+               "Non-coalescing schedules are asserted strictly; failures with >=1 pending.Merge(new) call match the listed finding.",
+    level_note="Trusted: the lattice model, the 40-line transcription of mesh gossipSender.Send/Broadcast/pick (vkit/gsender.go). For (b) the implementation "
+               "is known to violate the property whenever payloads coalesce (listed finding), so (b) separates 'fails as listed' from 'fails otherwise' only.",
+    rule="(a) non-trivial = history containing a merge whose payload entry has one changed and one unchanged time field; (b) non-trivial = >=2 payloads queued. "
+         "distinct = distinct case value.",
+    legs=[dict(name="delta", test="^TestDeltaExact$", quick=dict(n=2500, procs=4, timeout=300), thorough=dict(n=250000, procs=12, timeout=2400)),
+          dict(name="sender", test="^(TestProbeCoalescedLost|TestSenderQueue)$", quick=dict(n=4000, procs=2, timeout=300), thorough=dict(n=300000, procs=4, timeout=2400))],
+)
+
 for _k in CHECKS:
     NOT_APPLICABLE.pop(_k, None)
